@@ -36,7 +36,7 @@ def main():
         "engine": "eyecite-dsim",
         "level_claimed": {
             "category": "exploration",
-            "text": "Seeded search over thread interleavings (baton-passed real threads pre-empted at sys.settrace line events inside eyecite, scheduler-aware locks), call histories, cancellations, set-iteration orders and fresh interpreters with different PYTHONHASHSEED / locale / time zone; systematic single-pre-emption and single-cancellation sweeps at the first (thorough: and last) execution of every source line of a call, double-pre-emption samples, bytecode-granularity sweeps in the thorough tier; every key re-evaluated alone in a fresh child. Oracle: get_citations is a function (one outcome per (text, options) key in every context), inputs and earlier results are never modified, no schedule deadlocks. Sampling, not proof; every violation is minimised and replays exactly.",
+            "text": "Seeded search over thread interleavings (baton-passed real threads pre-empted at sys.settrace line events inside eyecite, scheduler-aware locks), call histories, cancellations, set-iteration orders and fresh interpreters with different PYTHONHASHSEED / locale / time zone; stack exhaustion (calls made with 1..139 free frames: a call that returns must return the function's value), capacities of module-level caches shrunk to 1 and 2 where the tree has such caches, scheduler-aware Lock/RLock/Event/Condition; systematic single-pre-emption and single-cancellation sweeps at the first (thorough: and last) execution of every source line of a call, double-pre-emption samples, bytecode-granularity sweeps in the thorough tier; every key re-evaluated alone in a fresh child. Oracle: get_citations is a function (one outcome per (text, options) key in every context), inputs and earlier results are never modified, no schedule deadlocks. Sampling, not proof; every violation is minimised and replays exactly.",
             "design_ref": "DESIGN.md section 5"
         },
         "level_note": "Trusted: CPython trace hooks (pre-emption at line granularity inside eyecite frames only), the pinned calendar, reporters-db/courts-db as installed. Set-order-shim disagreements are reported only after confirmation under real hash seeds.",
@@ -52,7 +52,7 @@ def main():
             "engine": "eyecite-dsim",
             "level_claimed": {
                 "category": "fault_enumeration",
-                "text": "Crash/restart and storage-fault simulation of the Hyperscan cache path: process lifetimes in forked children against one cache directory, crash plans at every intercepted storage operation and write-chunk boundary, ENOSPC, virtual time with clock skew and moved file timestamps, concurrent starts (one or two extractor lists) released one storage operation at a time; the complete grid of truncation-length classes x header-byte flips x foreign header values x whole-file faults x foreign/permuted/flag-toggled databases x crash points x damaged side files applied to a freshly written cache is enumerated exhaustively in every tier, seeded sequences of further faults around it; after every lifetime the Hyperscan-vs-reference differential on generated legal text with multi-byte neighbours (plus an enumeration of every extractor with a non-ASCII, {,n} or flagged pattern) is the read that checks the state.",
+                "text": "Crash/restart and storage-fault simulation of the Hyperscan cache path: process lifetimes in forked children against one cache directory, crash plans at every intercepted storage operation and write-chunk boundary, ENOSPC, virtual time with clock skew and moved file timestamps, concurrent starts (one or two extractor lists) released one storage operation at a time, operating-system errors (EIO, EACCES, EMFILE, EROFS, EINTR) at each of the first storage operations, read-only directories, entries that are directories or broken/looping/moved links, changes of the directory in the middle of a lifetime, caller-chosen lists whose cache keys collide under non-injective encodings, documents of 70 kB to 1.3 MB with a multi-byte character across every fixed byte offset; the complete grid of truncation-length classes x header-byte flips x foreign header values x whole-file faults x foreign/permuted/flag-toggled databases x crash points x damaged side files applied to a freshly written cache is enumerated exhaustively in every tier, seeded sequences of further faults around it; after every lifetime the Hyperscan-vs-reference differential on generated legal text with multi-byte neighbours (plus an enumeration of every extractor with a non-ASCII, {,n} or flagged pattern) is the read that checks the state.",
                 "design_ref": "DESIGN.md section 4"
             },
             "level_note": "Trusted: libhyperscan's own determinism, the kernel filesystem under /dev/shm, the pure-Python Tokenizer as reference model. Power-loss effects are modelled as file transformations between lifetimes.",
